@@ -407,6 +407,13 @@ func (ctx drawContext) drawBackground(bg *bo.Background, clipBox bool, bleed bo.
 		return
 	}
 
+	if clipBox && len(bg.Layers[len(bg.Layers)-1].ClippedBoxes) == 0 {
+		// The background of a table row, row group or column (group) is clipped
+		// to its cells: without any cell there is nothing to paint, and no path
+		// to clip with.
+		return
+	}
+
 	ctx.dst.OnNewStack(func() {
 		if clipBox {
 			for _, box := range bg.Layers[len(bg.Layers)-1].ClippedBoxes {
